@@ -258,9 +258,9 @@ func GenInput(t *rapid.T, p *Profile) *Input {
 	cfg := &in.Cfg
 	cfg.Ledgers = rapid.IntRange(1, max(1, p.MaxLedgers)).Draw(t, "ledgers")
 	cfg.Accounts = rapid.IntRange(2, 4).Draw(t, "accounts")
-	cfg.CacheSize = rapid.SampledFrom([]int{1, 1, 1024}).Draw(t, "cache")
+	cfg.CacheSize = rapid.SampledFrom([]int{1, 1, largeCache}).Draw(t, "cache")
 	if p.BigCache {
-		cfg.CacheSize = 1024
+		cfg.CacheSize = largeCache
 	}
 	cfg.BatchSize = rapid.SampledFrom([]int{1, 2, 3, 4096}).Draw(t, "batch")
 	if !p.NoBuggify {
